@@ -85,6 +85,8 @@ pub struct Ctx {
     pub subchecks: BTreeMap<String, u64>,
     pub regress_replayed: u64,
     pub fuzz_executions: u64,
+    /// distinct non-trivial sweep points (conservative lower bound), see `Sketch`
+    pub sketch: Option<std::sync::Arc<Sketch>>,
 }
 
 static REPORT_FD: AtomicI32 = AtomicI32::new(1);
@@ -219,6 +221,7 @@ impl Ctx {
             subchecks: BTreeMap::new(),
             regress_replayed: 0,
             fuzz_executions: 0,
+            sketch: None,
         }
     }
 
@@ -263,8 +266,23 @@ impl Ctx {
         }
     }
 
+    /// Distinct non-trivial cases: exact for cases accounted through `case`, plus the conservative
+    /// sketch count for sweep points, minus cases present in both.
     pub fn distinct_count(&self) -> usize {
-        self.distinct.len()
+        match &self.sketch {
+            None => self.distinct.len(),
+            Some(sk) => {
+                let both = self.distinct.iter().filter(|h| sk.contains(**h)).count();
+                self.distinct.len() + sk.count() as usize - both
+            }
+        }
+    }
+
+    pub fn sketch(&mut self) -> std::sync::Arc<Sketch> {
+        if self.sketch.is_none() {
+            self.sketch = Some(std::sync::Arc::new(Sketch::new()));
+        }
+        self.sketch.as_ref().unwrap().clone()
     }
 
     pub fn quick(&self) -> bool {
@@ -288,7 +306,7 @@ impl Ctx {
         *self.subchecks.entry(sub.to_string()).or_insert(0) += 1;
         *self.classes.entry(format!("{}:{}", sub, class)).or_insert(0) += 1;
         if nontrivial {
-            self.distinct.insert(Hx::new().s(sub).u(hash).finish());
+            self.distinct.insert(case_fingerprint(sub, hash));
         }
     }
 
@@ -597,7 +615,9 @@ impl Ctx {
         let _ = std::fs::create_dir_all(&dir);
         let mut cov = serde_json::Map::new();
         cov.insert("evaluations".into(), json!(self.evaluations));
-        cov.insert("distinct_nontrivial".into(), json!(self.distinct.len()));
+        cov.insert("distinct_nontrivial".into(), json!(self.distinct_count()));
+        cov.insert("distinct_nontrivial_exact_part".into(), json!(self.distinct.len()));
+        cov.insert("distinct_nontrivial_sweep_part_lower_bound".into(), json!(self.sketch.as_ref().map(|s| s.count()).unwrap_or(0)));
         cov.insert("rule".into(), json!(self.rule));
         cov.insert("samples".into(), json!(self.samples));
         cov.insert("exhaustive".into(), json!(false));
@@ -639,6 +659,39 @@ impl Ctx {
 }
 
 pub static INCONCLUSIVE: AtomicI32 = AtomicI32::new(0);
+
+/// Conservative distinct counter for dense sweeps (10^7..10^10 points) where a hash set of every case
+/// is not feasible: a 2^27-bit bitmap indexed by the case fingerprint. The number of set bits is a
+/// lower bound on the number of distinct fingerprints inserted (collisions only undercount; the count
+/// saturates at 1.3e8).
+pub struct Sketch {
+    bits: Vec<std::sync::atomic::AtomicU64>,
+}
+const SKETCH_WORDS: usize = 1 << 21;
+impl Sketch {
+    pub fn new() -> Self {
+        Sketch { bits: (0..SKETCH_WORDS).map(|_| std::sync::atomic::AtomicU64::new(0)).collect() }
+    }
+    #[inline]
+    pub fn insert(&self, h: u64) {
+        let bit = (h >> 7) as usize & (SKETCH_WORDS * 64 - 1);
+        self.bits[bit >> 6].fetch_or(1u64 << (bit & 63), Ordering::Relaxed);
+    }
+    #[inline]
+    pub fn contains(&self, h: u64) -> bool {
+        let bit = (h >> 7) as usize & (SKETCH_WORDS * 64 - 1);
+        self.bits[bit >> 6].load(Ordering::Relaxed) & (1u64 << (bit & 63)) != 0
+    }
+    pub fn count(&self) -> u64 {
+        self.bits.iter().map(|w| w.load(Ordering::Relaxed).count_ones() as u64).sum()
+    }
+}
+
+/// Fingerprint used both by `Ctx::case` and by sweep accounting, so the two can be de-duplicated.
+#[inline]
+pub fn case_fingerprint(sub: &str, hash: u64) -> u64 {
+    Hx::new().s(sub).u(hash).finish()
+}
 
 fn sanitize(s: &str) -> String {
     s.chars().map(|c| if c.is_ascii_alphanumeric() || c == '-' || c == '_' { c } else { '_' }).collect()
